@@ -1059,6 +1059,7 @@ def c17_r3(ctx):
             vec = rb.vars_of_operand(rv["ops"][0])
             pushes = [p for p in rb.calls_to("std::vec::Vec::<T, A>::push") if rb.vars_of_operand(p.args[0]) == vec]
             good = False
+            unread = False
             for p in pushes:
                 for o in rb.origins_of_operand(p.args[1]):
                     if is_call(o) and "Index" in o[0][3]:
@@ -1077,8 +1078,30 @@ def c17_r3(ctx):
                             o2[0][0] == "call" and o2[0][3] == HIST_INSERT for o2 in lps[0]["iter"])
                         if paths_ok and blob_ok and idx_ok and rb.every_iteration_calls(lps[0], [p.bb]) and not rb.loop_exits(lps[0]):
                             good = True
+                        elif paths_ok and blob_ok and not idx_ok:
+                            # `paths[indices[k]]` in a counter loop, an iterator the reader does not
+                            # know: the index does come out of the reported list, how completely is
+                            # not read
+                            roots = set()
+                            work = list(i_o)
+                            for _ in range(6):
+                                nxt = []
+                                for x in work:
+                                    if is_call(x) and "Index" in x[0][3]:
+                                        nxt.extend(rb.origins_of_operand(rb.call_at[x[0][2]].args[0]))
+                                    else:
+                                        roots.add(x)
+                                work = nxt
+                                if not work:
+                                    break
+                            if roots and all(x[0][0] == "call" and x[0][3] == HIST_INSERT for x in roots):
+                                unread = True
+            if not good and "blob::Blob::get_paths" not in ctx.P.fns:
+                raise AnalysisError("C17.R3: anchor missing: Blob::get_paths (the rule reads the reported paths as get_paths()[i])")
             if good:
                 ctx.ok()
+            elif unread:
+                raise AnalysisError("idiom not recognised: %s takes the contradicting paths as paths[i] with i out of the reported list, but not in a `for` over that list" % rb.id)
             else:
                 ctx.viol((rb.id, "contradiction-paths"), "the paths named by the contradiction error are not `paths[i]` of this rule's blob for every reported i", rb.where(bb, idx))
 
